@@ -180,7 +180,9 @@ def _add_zids(zdir: Path, page: Page) -> None:
             first_words = first_line.split(" ")
             if zdt.is_long_date_spec(first_words[0]):
                 first_line = " ".join(first_words[1:])
-            note.body = f"{zid} {first_line}{newline}{other_lines}"
+            # (A note that consists of its create date alone keeps no blank
+            # after the ZID: a compiled body has no outer whitespace.)
+            note.body = f"{zid} {first_line}{newline}{other_lines}".rstrip()
             new_notes.append(note)
     if new_notes:
         page.events.append(
